@@ -108,6 +108,10 @@ def finish(ctx, level='model_checking'):
     for v in real:
         bykey.setdefault(v['key'], []).append(v)
     rdir = os.path.join(os.environ.get('VERIF_REPLAY_DIR', os.path.join(ROOT, 'replays')), ctx.pid)
+    if os.path.isdir(rdir):
+        for fn in os.listdir(rdir):
+            if fn.endswith('.json'):
+                os.unlink(os.path.join(rdir, fn))
     for key, vs in sorted(bykey.items()):
         os.makedirs(rdir, exist_ok=True)
         safe = ''.join(ch if ch.isalnum() or ch in '-_.' else '_' for ch in key)[:120]
